@@ -28,6 +28,9 @@ pub fn json_eq(a: &Value, b: &Value) -> bool {
 pub fn compare(m: &MOut, j: &Outcome) -> Cmp {
 	match (m, j) {
 		(MOut::Err(e), _) if e.undecided() => Cmp::Undecided(format!("{e:?}")),
+		// `string * number` (string repetition) is a jrsonnet extension outside the stated language: a program whose
+		// reference run stops at exactly that operation is outside the domain
+		(MOut::Err(E::Type(t)), Outcome::Val(_)) if t == "string * number" || t == "number * string" => Cmp::Undecided("string repetition extension".to_owned()),
 		(_, Outcome::Panic(p)) => Cmp::Disagree(format!("jrsonnet panicked: {p}")),
 		(MOut::Val(a), Outcome::Val(b)) => {
 			// own strict parser: numbers are converted with correctly rounded f64::from_str on both sides
@@ -48,8 +51,14 @@ pub fn compare(m: &MOut, j: &Outcome) -> Cmp {
 	}
 }
 
+thread_local! {
+	/// while set, the reference runs with the deviation model of the recorded finding C02-same-reference-equality-shortcut
+	/// (used only to explain a failure that has already been observed, never to set an expectation)
+	static SAME_REFERENCE_EQUAL: std::cell::Cell<bool> = const { std::cell::Cell::new(false) };
+}
 pub fn model_of(e: &Ex) -> MOut {
 	let it = Interp::new(400_000);
+	it.same_reference_equal.set(SAME_REFERENCE_EQUAL.with(|c| c.get()));
 	model::run(e, &it)
 }
 
@@ -182,8 +191,18 @@ pub fn case(run: &Run, tape: &[u16], depth: usize, budget: isize) -> CaseOut {
 				}
 			}
 			let nontrivial = size >= 8;
-			let _ = run;
 			let mut out = if d.problems.is_empty() { CaseOut::pass(d.text, nontrivial) } else { CaseOut::fail(d.text, d.problems.join("\n")) };
+			// recorded finding (listed under C02): `x == x` on one and the same array/object answers true without reading
+			// it.  A failing case is attributed to it iff the reference with exactly that deviation agrees everywhere.
+			if !d.problems.is_empty() && run.known_listed(crate::props::c02::K_PTR_EQ) {
+				SAME_REFERENCE_EQUAL.with(|c| c.set(true));
+				let again = decide(tape, depth, budget);
+				SAME_REFERENCE_EQUAL.with(|c| c.set(false));
+				if matches!(&again, Ok((d2, _, _)) if d2.problems.is_empty()) {
+					run.count_excluded(crate::props::c02::K_PTR_EQ);
+					out = CaseOut::discard(out.text.clone(), "explained by the recorded finding C02-same-reference-equality-shortcut");
+				}
+			}
 			out.classes = classes;
 			out
 		}
